@@ -179,7 +179,7 @@ def run(tier, seed, out, drv, facts):
     rng = Rng(seed, "C05")
     thorough = tier == "thorough"
     generator_cases(out)
-    n = 5000 if thorough else 500
+    n = 40000 if thorough else 500
     for i in range(n):
         depth = rng.rng(1, 5 if thorough else 3)
         prog = gen_prog.rand_prog(rng, depth, max_stmts=3)
